@@ -228,7 +228,7 @@ class ArffLineReader(Filter[str, Sequence[str]]):
             if quotechar == '"':
                 pass
             elif quotechar is None:
-                self._quotechar = '"'
+                self._quotechar = quotechar = '"'
                 dialect['quotechar'] = '"'
             else:
                 self._set_filter(self._dense_advanced)
